@@ -20,6 +20,7 @@ import random
 from fractions import Fraction
 
 from dv import core, trees
+from dv import c17_hist
 from dv.core import cz, cbool, clist, copt, cpair, cq
 
 HEADER = ("From DV Require Import Model.PyPrims Model.Tree Model.C17Model.\n"
@@ -432,6 +433,8 @@ def observe(case):
             return observe_ages(case)
         if case["kind"] == "depth":
             return observe_depth(case)
+        if case["kind"] == "hist":
+            return c17_hist.observe_hist(case, _SELF)
         return observe_stats(case)
 
 
@@ -496,6 +499,13 @@ def c_gobs(o):
 
 
 def to_coq(case, obs):
+    """one correspondence case = a list of model cases (a history yields one per query group)"""
+    if case["kind"] == "hist":
+        return clist(c17_hist.to_coq_terms(case, obs, _SELF))
+    return clist([to_coq1(case, obs)])
+
+
+def to_coq1(case, obs):
     t = trees.c_tree(case["tree"])
     if case["kind"] == "ages":
         cfg = "(mkCfg %s %s %s)" % (c_prec(case["prec"]), cbool(case["fmax"]), cbool(case["fmin"]))
@@ -818,6 +828,8 @@ def oracle_stats(case, obs):
 
 
 def oracle(case, obs):
+    if case["kind"] == "hist":
+        return c17_hist.oracle_hist(case, obs, _SELF)
     if case["kind"] == "ages":
         return oracle_ages(case, obs)
     if case["kind"] == "depth":
@@ -827,12 +839,21 @@ def oracle(case, obs):
 
 # ----------------------------------------------------------------------------------------------
 
+import sys as _sys
+_SELF = _sys.modules[__name__]
+
+
 def nontrivial(case, obs):
     return len(trees.preorder(case["tree"])) >= 4
 
 
+STALE_GAMMA = [False]     # histories that query gamma on stale ages: only once that finding is listed
+
+
 def gen_case(rng, maxleaves):
     r = rng.random()
+    if r < 0.12:
+        return c17_hist.gen_hist_case(rng, min(maxleaves, 8), _SELF, STALE_GAMMA[0])
     if r < 0.5:
         return gen_ages_case(rng, maxleaves)
     if r < 0.72:
@@ -861,7 +882,7 @@ def search(ctx, budget_s):
     t0 = time.time()
     rng = random.Random(ctx.seed + 1717)
     n = 0
-    cases = fixed_cases() + exhaustive_cases(4)
+    cases = fixed_cases() + c17_hist.fixed_hist_cases() + exhaustive_cases(4)
     while time.time() - t0 < budget_s and n < 20000:
         case = cases[n] if n < len(cases) else gen_case(rng, 10)
         n += 1
@@ -937,12 +958,16 @@ def run(tier, seed, replay=None):
         core.broken_proof(ctx, search)
     n = 800 if tier == "quick" else 20000
     maxl = 10 if tier == "quick" else 24
-    cases = fixed_cases() + [gen_case(ctx.rng, maxl) for _ in range(n)]
+    STALE_GAMMA[0] = c17_hist.KEY_GAMMA_STALE in ctx.known
+    cases = fixed_cases() + c17_hist.fixed_hist_cases() + [gen_case(ctx.rng, maxl) for _ in range(n)]
     if tier == "thorough":
         cases.extend(exhaustive_cases(6))
     for c in cases:
         ctx.count("kind:" + c["kind"])
         ctx.count("gen:" + c["gen"].split("+")[0])
+        if c["kind"] == "hist":
+            for st in c["steps"]:
+                ctx.count("hist-step:" + st[0])
         if c["kind"] == "ages":
             ctx.count("prec:" + str(c["prec"]))
             ctx.count("force:%s%s" % ("max" if c["fmax"] else "", "min" if c["fmin"] else ""))
@@ -954,8 +979,8 @@ def run(tier, seed, replay=None):
             k = "ages:" + (obs["calc"][0] if obs["calc"][0] == "ok" else obs["calc"][1])
             outcomes[k] = outcomes.get(k, 0) + 1
         return obs
-    core.corr_stage(ctx, cases, observe_counted, to_coq, HEADER, "case_ok", oracle=oracle,
-                    show_fn="case_run", nontrivial=nontrivial, search=search, shard=100,
+    core.corr_stage(ctx, cases, observe_counted, to_coq, HEADER, "(forallb case_ok)", oracle=oracle,
+                    show_fn="(map case_run)", nontrivial=nontrivial, search=search, shard=100,
                     sample_fn=lambda c, o: {"kind": c["kind"], "gen": c["gen"], "newick": trees.newick(c["tree"]),
                                             "prec": c.get("prec"), "observed": str(o)[:300]})
     for k, v in outcomes.items():
@@ -965,5 +990,8 @@ def run(tier, seed, replay=None):
                            "precision-1/precision/precision+1 units, random non-ultrametric, None / negative lengths, "
                            "unifurcations, polytomies) x 18 precision values incl. None/False/negative/default x forcing options; "
                            "depth cases query num_lineages_at at node depths +-1 unit; stats cases cover every normalisation and "
-                           "the child-reversed tree; thorough adds every ordered shape with <= 6 leaves; a case is non-trivial when "
+                           "the child-reversed tree; 12%% of the cases are histories on one tree object (query group, 1-2 edits of the "
+                           "lengths by scale_edges / assignment / set_edge_lengths_from_node_ages / reroot_at_node, query group again, "
+                           "up to 3 rounds, after a call that leaves root_distance or age attributes behind) judged on the tree as it "
+                           "is at each query; thorough adds every ordered shape with <= 6 leaves; a case is non-trivial when "
                            "the tree has >= 4 nodes; distinct by full case content" % maxl)
